@@ -400,6 +400,12 @@ impl Database {
             (ai, header.rightmost_hint())
         };
         let mut auto_increment_max = auto_increment_current;
+        // largest id the column's integer type can hold (the counter itself is a u64)
+        let auto_increment_limit: u64 = match auto_increment_col_idx.and_then(|i| column_types.get(i)) {
+            Some(crate::records::types::DataType::Int2) => i16::MAX as u64,
+            Some(crate::records::types::DataType::Int4) => i32::MAX as u64,
+            _ => i64::MAX as u64,
+        };
         let mut rightmost_hint = if hint > 0 { Some(hint) } else { None };
 
         let mut toast_rightmost_hints: SmallVec<[Option<u32>; 8]> = SmallVec::new();
@@ -543,8 +549,10 @@ impl Database {
 
             if let Some(auto_col_idx) = auto_increment_col_idx {
                 if values.get(auto_col_idx).is_none_or(|v| v.is_null()) {
-                    auto_increment_current =
-                        auto_increment_current.checked_add(1).ok_or_else(|| {
+                    auto_increment_current = auto_increment_current
+                        .checked_add(1)
+                        .filter(|next| *next <= auto_increment_limit)
+                        .ok_or_else(|| {
                             eyre::eyre!("auto_increment overflow: exceeded maximum value")
                         })?;
                     values[auto_col_idx] = OwnedValue::Int(auto_increment_current as i64);
@@ -555,6 +563,12 @@ impl Database {
                     if *provided_val < 0 {
                         bail!(
                             "auto_increment column cannot have negative value: {}",
+                            provided_val
+                        );
+                    }
+                    if (*provided_val as u64) > auto_increment_limit {
+                        bail!(
+                            "auto_increment column value out of range: {}",
                             provided_val
                         );
                     }
